@@ -3,7 +3,7 @@
    popPendingDataChunksToSend admission, T3 expiry) + generated maxPayloadSizeForMTU.
    Only statements closed by [exact] + Print Assumptions. *)
 From Coq Require Import ZArith Bool List.
-From Sctp Require Import Gen SnaProofs Sender SenderProofs.
+From Sctp Require Import Gen SnaProofs Sender SenderProofs SenderGrowth.
 Import ListNotations.
 Open Scope Z_scope.
 
@@ -70,6 +70,30 @@ Theorem c10_rack_loss_is_a_cut : forall s, 0 < st_mtu s < 1073741824 ->
      (4 * st_mtu s <= st_cwnd s -> st_mincwnd s <= st_cwnd s -> st_cwnd (rack_cut s) <= st_cwnd s)).
 Proof. exact rack_cut_spec. Qed.
 Print Assumptions c10_rack_loss_is_a_cut.
+
+(* growth law (what makes "within its congestion window" meaningful): a SACK raises cwnd only when the cumulative
+   ack point advances and data is waiting, by at most cwnd itself in slow start and by at most max(MTU, cwndCAStep)
+   in congestion avoidance; the only other upward move is the RFC 4960 7.2.3 value 4*MTU on entry into fast recovery *)
+Theorem c10_cwnd_growth_law : forall s cum arwnd gaps s',
+  sack_step s cum arwnd gaps = SOk s' ->
+  0 <= st_cwnd s < 2147483648 -> 0 <= st_castep s < 2147483648 -> 0 < st_mtu s < 1073741824 -> floor_ok s ->
+  (sna32LT (st_cum s) cum = false -> st_cwnd s' <= Z.max (st_cwnd s) (4 * st_mtu s)) /\
+  (st_pendn s <= 0 -> st_cwnd s' <= Z.max (st_cwnd s) (4 * st_mtu s)) /\
+  (st_cwnd s <= st_ssthresh s -> st_cwnd s' <= Z.max (2 * st_cwnd s) (4 * st_mtu s)) /\
+  (st_ssthresh s < st_cwnd s -> st_cwnd s' <= Z.max (st_cwnd s + Z.max (st_mtu s) (st_castep s)) (4 * st_mtu s)).
+Proof. exact sack_step_growth. Qed.
+Print Assumptions c10_cwnd_growth_law.
+
+(* non-vacuity: slow start grows by the 1000 bytes newly acknowledged; congestion avoidance by one MTU once
+   partial_bytes_acked reaches cwnd; a SACK that does not advance the ack point leaves cwnd alone *)
+Example c10_growth_example :
+  let ss := mkS c_established 99 100 [mkSC 1 1000 false false 0 false] 1000 4380 100000 100000 0 false 0 false 1200 0 0 1 500 [(1, 1500)] in
+  let ca := mkS c_established 99 100 [mkSC 1 1000 false false 0 false] 1000 4380 2000 2000 3500 false 0 false 1200 0 0 1 500 [(1, 1500)] in
+  match sack_step ss 100 90000 [], sack_step ca 100 90000 [], sack_step ss 99 90000 [] with
+  | SOk a, SOk b, SOk c => st_cwnd a = 5380 /\ st_cwnd b = 5580 /\ st_pba b = 120 /\ st_cwnd c = 4380
+  | _, _, _ => False
+  end.
+Proof. vm_compute. repeat split; reflexivity. Qed.
 
 (* fragments are at most maxPayloadSizeForMTU, and a packet with one such DATA chunk fits the MTU
    (generated definitions: association.go maxPayloadSizeForMTU) *)
